@@ -167,11 +167,41 @@ func clauseEntries(fset *token.FileSet, stmts []ast.Stmt, vars map[string]string
 				}
 				return true
 			})
+			// "each" only if every element is guarded: no continue/break in the loop body and the derefsAreLocal call is
+			// a direct statement of the body (or the init of an if directly in the body); otherwise "filtered"
+			all := true
+			ast.Inspect(s.Body, func(n ast.Node) bool {
+				if b, ok := n.(*ast.BranchStmt); ok && (b.Tok == token.CONTINUE || b.Tok == token.BREAK || b.Tok == token.GOTO) {
+					all = false
+				}
+				return true
+			})
+			direct := false
+			for _, bs := range s.Body.List {
+				var as *ast.AssignStmt
+				switch x := bs.(type) {
+				case *ast.AssignStmt:
+					as = x
+				case *ast.IfStmt:
+					if i, ok := x.Init.(*ast.AssignStmt); ok {
+						as = i
+					}
+				}
+				if as != nil && len(as.Rhs) == 1 {
+					if _, ok := guardOperand(fset, as.Rhs[0]); ok {
+						direct = true
+					}
+				}
+			}
+			subName := "each"
+			if !all || !direct {
+				subName = "filtered"
+			}
 			ast.Inspect(s.Body, func(n ast.Node) bool {
 				if r, ok := n.(*ast.ReturnStmt); ok && len(r.Results) == 1 {
 					v := verdictOf(fset, r.Results[0], local)
 					if strings.HasPrefix(v, "LGuard") {
-						out = append(out, struct{ sub, verdict string }{"each", v})
+						out = append(out, struct{ sub, verdict string }{subName, v})
 					}
 				}
 				return true
